@@ -2127,8 +2127,34 @@ func holdsPointer(rv reflect.Value, depth int, path valuePath) bool {
 				return true
 			}
 		}
+	case reflect.Chan, reflect.Func, reflect.UnsafePointer:
+		// fmt prints these as their address
+		return !rv.IsNil()
 	}
 	return false
+}
+
+// withoutAddresses prepares an argument for fmt so that no memory address is printed:
+// a pointer to a plain value (number, string, bool) stands for that value, and anything
+// else in which fmt would print an address is handed over in its printed form (printed
+// is true then)
+func withoutAddresses(arg interface{}) (value interface{}, printed bool) {
+	rv := reflect.ValueOf(arg)
+	if rv.Kind() == reflect.Ptr && !rv.IsNil() {
+		switch elem := rv.Elem(); elem.Kind() {
+		case reflect.Bool, reflect.String,
+			reflect.Int, reflect.Int8, reflect.Int16, reflect.Int32, reflect.Int64,
+			reflect.Uint, reflect.Uint8, reflect.Uint16, reflect.Uint32, reflect.Uint64, reflect.Uintptr,
+			reflect.Float32, reflect.Float64, reflect.Complex64, reflect.Complex128:
+			if _, ok := arg.(fmt.Stringer); !ok && elem.CanInterface() {
+				return elem.Interface(), false
+			}
+		}
+	}
+	if holdsPointer(rv, 0, nil) {
+		return formatWithoutAddresses(arg), true
+	}
+	return arg, false
 }
 
 // containsItself reports whether walking into a value comes back to a pointer, map or
